@@ -61,7 +61,35 @@ def diff_clauses(a, b):
     return out
 
 
+def syntactic_nonneg(t, depth=0):
+    """sound syntactic test: numerals >= 0, sums of non-negative terms, products whose factors pair up identically"""
+    if z3.is_rational_value(t) or z3.is_int_value(t):
+        return t.numerator_as_long() >= 0 if z3.is_rational_value(t) else t.as_long() >= 0
+    if z3.is_add(t):
+        return all(syntactic_nonneg(c, depth + 1) for c in t.children())
+    if z3.is_mul(t):
+        ch = list(t.children())
+        rest = []
+        while ch:
+            c = ch.pop()
+            for i, o in enumerate(ch):
+                if o.eq(c):
+                    ch.pop(i)
+                    break
+            else:
+                rest.append(c)
+        return all(syntactic_nonneg(c, depth + 1) for c in rest)
+    if z3.is_app_of(t, z3.Z3_OP_POWER):
+        e = t.arg(1)
+        return z3.is_int_value(e) and e.as_long() % 2 == 0 or (z3.is_rational_value(e) and e.denominator_as_long() == 1 and e.numerator_as_long() % 2 == 0)
+    return False
+
+
 class BaseEnv:
+    def sos_fact(self, t):
+        pass
+
+
     def __init__(self, tt):
         self.tt = tt
         self.tn = st
@@ -219,6 +247,47 @@ class SymEnv(BaseEnv):
             return self._record(label, 'violated', m, 'values differ')
         return self._record(label, 'unknown')
 
+    def lemma(self, label, a, b):
+        """cut rule: prove a == b with z3, then abstract both terms by one fresh symbol g on the rest of this path
+        (rewrites a -> g, b -> g in every later query; g >= 0 is added when b is syntactically a sum of squares).
+        Dropping g's definition only weakens later queries (never turns sat into unsat)."""
+        r = self.eq(label, a, b)
+        if r['status'] == 'ok':
+            a = self.arr(a)
+            b = self.arr(b)
+            ctx = cur()
+            for x, y in zip(a.flat, b.flat):
+                if x is y:
+                    continue
+                xs, ys = scalar_terms(x), scalar_terms(y)
+                for xt, yt in zip(xs, ys):
+                    if xt is None and yt is None:
+                        continue
+                    xt = xt if xt is not None else z3.RealVal(0)
+                    yt = yt if yt is not None else z3.RealVal(0)
+                    if xt.eq(yt):
+                        continue
+                    if z3.is_rational_value(yt):
+                        if not z3.is_rational_value(xt):
+                            ctx.rewrites.append((xt, yt))
+                        continue
+                    g = z3.Real(ctx.fresh_name('lemma'))
+                    if not z3.is_rational_value(xt):
+                        ctx.rewrites.append((xt, g))
+                    ctx.rewrites.append((yt, g))
+                    if syntactic_nonneg(yt):
+                        ctx.pc.append(g >= 0)
+        return r
+
+    def sos_fact(self, t):
+        """hand z3 the valid fact t >= 0 for a term that is *syntactically* a sum of squares (checked here)"""
+        for v in self.arr(t).flat:
+            if isinstance(v, (int, float, Fraction)):
+                continue
+            term = to_z3_real(v)
+            if syntactic_nonneg(term):
+                cur().pc.append(term >= 0)
+
     def true(self, label, cond):
         if isinstance(cond, SymBool):
             status, m = cur().check([z3.Not(cond.t)], self.qtimeout_ms)
@@ -337,6 +406,9 @@ class ExactEnv(BaseEnv):
         self.results.append({'label': label, 'status': 'ok' if ok else 'violated'})
         self.outputs.append({'label': label, 'shape': list(a.shape),
                              'lhs': [self._num(v) for v in a.flat] if same_shape else []})
+
+    def lemma(self, label, a, b):
+        return self.eq(label, a, b)
 
     def true(self, label, cond):
         if isinstance(cond, st.Tensor):
